@@ -27,7 +27,7 @@ type c09Params struct {
 	Reuse bool
 	// Trailer: bytes that cannot be decoded as a message follow the stimulus in
 	// the same write (only for stimuli that end the connection)
-	Trailer string // "" | type5 | badopen | shortnotif
+	Trailer string // "" | type5 | badopen | shortnotif | badlen | badmarker
 	// Pipe: the stimulus is glued behind the message that moves the connection into
 	// the state (so it is read while the FSM is still busy with that message) and the
 	// remote closes at once afterwards
@@ -36,7 +36,7 @@ type c09Params struct {
 
 func c09World(t *testing.T, p c09Params) rt.Result {
 	r := rt.Get().Rand("c09w", int(p.Seed))
-	out := hz.Run(t, hz.Opts{Seed: p.Seed, HookMode: p.Hook, WriteYields: 3}, func(w *hz.World) {
+	out := hz.Run(t, hz.Opts{Seed: p.Seed, HookMode: p.Hook, WriteYields: 3, EOFWithData: p.Seed%3 == 0}, func(w *hz.World) {
 		ps := hz.StdPeer("10.0.1.1")
 		ps.Cfg.ProbeWriteInClose = true
 		v := pickVariety(r, p.Dir)
@@ -106,6 +106,10 @@ func c09World(t *testing.T, p c09Params) rt.Result {
 				stim = append(stim, wire.Msg(wire.TypeOpen, []byte{4, 0, 1})...)
 			case "shortnotif":
 				stim = append(stim, wire.Msg(wire.TypeNotification, []byte{6})...)
+			case "badlen": // a header whose length field is out of range (one error path of the reader per trailer)
+				stim = append(stim, wire.RawHeader(nil, []uint16{18, 0, 4097, 65535}[r.IntN(4)], 4)...)
+			case "badmarker":
+				stim = append(stim, wire.RawHeader(make([]byte, 16), 19, 4)...)
 			}
 		}
 		v.Kick()
@@ -239,7 +243,7 @@ func TestC09(t *testing.T) {
 						p.Hook = hz.HookOff
 					}
 					p.Reuse = dir == "out" && k%3 == 0
-					p.Trailer = []string{"", "", "type5", "badopen", "shortnotif"}[k%5]
+					p.Trailer = []string{"", "", "type5", "badopen", "shortnotif", "badlen", "badmarker"}[(k+k/5)%7]
 					p.Pipe = k%4 == 1
 					i := idx
 					runCase(t, "table", i, p, func(t *testing.T) rt.Result { return c09World(t, p) })
@@ -273,7 +277,7 @@ func TestC09(t *testing.T) {
 		}
 		p.Active = r.IntN(2) == 0
 		p.Reuse = p.Dir == "out" && r.IntN(3) == 0
-		p.Trailer = []string{"", "", "type5", "badopen", "shortnotif"}[r.IntN(5)]
+		p.Trailer = []string{"", "", "type5", "badopen", "shortnotif", "badlen", "badmarker"}[r.IntN(7)]
 		p.Pipe = r.IntN(4) == 0
 		runCase(t, "notif", i, p, func(t *testing.T) rt.Result { return c09World(t, p) })
 	}
